@@ -10,13 +10,13 @@ FUNCTIONS = ['Netlist.__init__', 'parse_yaml_netlist/modules/module/center/aspec
              'Rectangle.__init__', 'Module.__init__', 'Module.setup', 'Module._read_region_area', 'Module.area', 'Module.area_rectangles',
              'Module.calculate_center_from_rectangles', 'Netlist._create_rectangles', 'Netlist.rectangles', 'Netlist.fixed_rectangles',
              'HyperEdge.wire_length', 'Netlist.wire_length', 'Point arithmetic']
-BOUNDS = {'quick': 'the 6 document structures of C04 (all numbers symbolic); for each of 18 defect classes, the defect injected at every '
+BOUNDS = {'quick': 'the 6 document structures of C04 (all numbers symbolic); for each of 20 defect classes, the defect injected at every '
                    'position of every structure where it applies',
           'thorough': '10 structures'}
 ASSUMPTIONS = ['R model; one axis of rectangles symbolic', 'overlapping hard rectangles overlap by a clear margin (>= 0.05 x 1)']
 NOT_DECIDED = ['overlaps below the area tolerance at scales >= 1e-4 (at smaller scales: known finding C05-area-tolerance-small-scale)', 'text-level YAML errors']
 MUST_REACH = ['well-formed', 'defect-rejected']
-DEFECTS = ['hard-overlap-first-last', 'hard-overlap-last-two', 'unknown-module-in-net', 'weight-zero', 'weight-negative', 'area-zero', 'area-negative', 'soft-without-area',
+DEFECTS = ['hard-overlap-first-last', 'hard-overlap-last-two', 'hard-overlap-two-branches', 'hard-overlap-two-branches-trunk-middle', 'unknown-module-in-net', 'weight-zero', 'weight-negative', 'area-zero', 'area-negative', 'soft-without-area',
            'hard-with-area', 'hard-without-rectangles', 'hard-overlapping-rectangles', 'unknown-attribute', 'invalid-name',
            'one-pin-net', 'one-pin-net-weighted', 'rect-width-zero', 'rect-height-negative', 'region-area-zero']
 
@@ -127,7 +127,7 @@ def inject(I, tree, specs, defect, pos):
             return False
         del mods[m]['rectangles']
     elif defect == 'hard-overlapping-rectangles':
-        m = nth([n for n in names if (mods[n].get('hard') or mods[n].get('fixed')) and 'rectangles' in mods[n]])
+        m = nth([n for n in names if (mods[n].get('hard') or mods[n].get('fixed')) and 'rectangles' in mods[n] and not mods[n].get('terminal')])
         if m is None:
             return False
         r = mods[m]['rectangles'][0]
@@ -136,7 +136,7 @@ def inject(I, tree, specs, defect, pos):
         mods[m]['rectangles'] = [r, [r[0] + r[2] / 2 - ov + 0.5, r[1], 1.0, r[3]]]
     elif defect in ('hard-overlap-first-last', 'hard-overlap-last-two'):
         # three rectangles; the overlapping pair is (first, last) resp. (second, third), the remaining one is far away
-        m = nth([n for n in names if (mods[n].get('hard') or mods[n].get('fixed')) and 'rectangles' in mods[n]])
+        m = nth([n for n in names if (mods[n].get('hard') or mods[n].get('fixed')) and 'rectangles' in mods[n] and not mods[n].get('terminal')])
         if m is None:
             return False
         r = mods[m]['rectangles'][0]
@@ -144,6 +144,16 @@ def inject(I, tree, specs, defect, pos):
         over = [r[0] + r[2] / 2 - ov + 0.5, r[1], 1.0, r[3]]
         far = [r[0], r[1] + 20.0, r[2], r[3]]
         mods[m]['rectangles'] = [r, far, over] if defect == 'hard-overlap-first-last' else [far, r, over]
+    elif defect in ('hard-overlap-two-branches', 'hard-overlap-two-branches-trunk-middle'):
+        # a trunk with two branches on its north side, each abutting the trunk within its span (a single-trunk orthogon as far as
+        # the trunk is concerned) but overlapping EACH OTHER by a quarter of the trunk's width
+        m = nth([n for n in names if (mods[n].get('hard') or mods[n].get('fixed')) and 'rectangles' in mods[n] and not mods[n].get('terminal')])
+        if m is None:
+            return False
+        r = mods[m]['rectangles'][0]
+        b1 = [r[0] - r[2] / 4, r[1] + r[3] / 2 + 0.5, r[2] / 2, 1.0]
+        b2 = [r[0], r[1] + r[3] / 2 + 0.5, r[2] / 2, 1.0]
+        mods[m]['rectangles'] = [r, b1, b2] if defect == 'hard-overlap-two-branches' else [b1, r, b2]
     elif defect == 'unknown-attribute':
         m = nth(names)
         if m is None:
@@ -211,7 +221,7 @@ def body(I, case):
     for m, s in zip(n.modules, specs):
         ra = [r[2] * r[3] for r in s['rects']]
         if s['terminal']:
-            want = 0
+            want = sum(ra, 0)   # zero for a terminal proper; a pad with a footprint follows the hard-module rule
         elif s['hard']:
             want = sum(ra, 0)
         else:
